@@ -12,6 +12,7 @@ from typing import Dict, List, Optional, Set, Tuple
 
 from ..model import Repo, ClassInfo, FuncInfo, AnalysisError, norm, parent, ancestors, enclosing_stmt, const_str
 from ..report import Ctx, RuleResult
+from ..exprs import has_pat, find_pat
 
 UI = 'lark.exceptions:UnexpectedInput'
 
@@ -188,14 +189,15 @@ def run(ctx: Ctx) -> RuleResult:
     for n in ft.body_nodes():
         if isinstance(n, ast.Try) and any('KeyError' in norm(h.type) for h in n.handlers if h.type is not None):
             h = [h for h in n.handlers if h.type is not None and 'KeyError' in norm(h.type)][0]
-            ok = any(isinstance(x, ast.Raise) and 'UnexpectedToken(token' in norm(x.exc) for x in h.body) and \
-                any('states[state][token.type]' in norm(x) for x in n.body)
+            tparam = ft.positional_names()[0]
+            ok = any(isinstance(x, ast.Raise) and isinstance(x.exc, ast.Call) and norm(x.exc.func) == 'UnexpectedToken' and x.exc.args
+                     and norm(x.exc.args[0]) == tparam for x in h.body) and \
+                has_pat([y for x in n.body for y in ast.walk(x)], '$st[$s][$t.type]', {'t': tparam})
     res.ob('%s %s' % (ft.loc(), ft.qual), 'a token with no action in the current state raises UnexpectedToken(token, ...) before any shift', ok)
     if not ok:
         res.finding(ft, ft.node, 'the missing-action case of the LALR driver no longer raises UnexpectedToken for the offending token', construct='lalr-unexpected')
     pfs = repo.func('lark.parsers.lalr_parser:_Parser.parse_from_state')
-    ok = any(isinstance(n, ast.IfExp) and "Token.new_borrow_pos('$END', '', token)" in norm(n.body) and norm(n.test) == 'token is not None'
-             for n in pfs.body_nodes())
+    ok = has_pat(pfs.body_nodes(), r"Token.new_borrow_pos('\x24END', '', $t) if $t is not None else $$d")
     res.ob('%s %s' % (pfs.loc(), pfs.qual), '$END borrows the coordinates of the last token whenever there is one', ok)
     if not ok:
         res.finding(pfs, pfs.node, 'the end token does not borrow the last token\'s coordinates under `token is not None`', construct='end-borrow')
@@ -223,7 +225,7 @@ def run(ctx: Ctx) -> RuleResult:
         if not ok:
             res.finding(f, f.node, 'the Earley scanner\'s rejection (%s) changed shape' % cls, construct='earley-reject:' + cls)
     ep = repo.func('lark.parsers.earley:Parser.parse')
-    ok = any(isinstance(n, ast.If) and norm(n.test) == 'not solutions' and any(isinstance(s, ast.Raise) and 'UnexpectedEOF' in norm(s.exc) for s in n.body)
+    ok = any(isinstance(n, ast.If) and has_pat([n.test], 'not $s') and any(isinstance(s, ast.Raise) and 'UnexpectedEOF' in norm(s.exc) for s in n.body)
              for n in ep.body_nodes())
     res.ob('%s %s' % (ep.loc(), ep.qual), 'no complete start item in the last column raises UnexpectedEOF', ok)
     if not ok:
